@@ -32,7 +32,7 @@ contract('IOManager._read_bytes_from_device',
                   ('C11', 'duration', 'implies(%s, G.now - old(G.now) <= %s + %s + %s)' % (TNN, R, T, CPU)),
                   ('C11', 'clock-monotone', 'G.now >= old(G.now) and G.cpu >= old(G.cpu)'),
                   ('C06,C12', 'locks-unchanged', 'G.held_transport == old(G.held_transport)')],
-         raises={'AdbTimeoutError': [('C11', 'timeout-only-after-deadline', 'G.now - old(G.now) > adb_info.read_timeout_s'),
+         raises={'AdbTimeoutError': [('C11,C03', 'timeout-only-after-deadline', 'G.now - old(G.now) > adb_info.read_timeout_s'),
                                      ('C11', 'duration', 'implies(%s, G.now - old(G.now) <= %s + %s + %s)' % (TNN, R, T, CPU)),
                                      ('C03,C01,C08,C09', 'partial-progress', 'G.rpos >= old(G.rpos) and G.rpos < old(G.rpos) + length and G.rpos <= len(G.dev)'),
                                      'G.now >= old(G.now) and G.cpu >= old(G.cpu)'],
